@@ -146,7 +146,9 @@ def case(task):
     return out
 
 
-LINKS = {'out': '../../abs', 'lnk': '../x', 'dangling': '../created-through-a-link', 'loop': 'loop', 'inside': 'sub', 'inlnk': 'sub/f'}
+LINKS = {'out': '../../abs', 'lnk': '../x', 'dangling': '../created-through-a-link', 'loop': 'loop', 'inside': 'sub', 'inlnk': 'sub/f',
+         # a link waiting where the backups of p1.patch for files below sub/ go
+         '.pc/p1.patch/sub': '../../../../abs'}
 
 
 def link_case(task):
@@ -196,9 +198,37 @@ def link_case(task):
         elif inside_before != inside_after and kind != 'failing':
             ch = sorted(p for p in set(inside_before) | set(inside_after) if inside_before.get(p) != inside_after.get(p))
             out['violations'].append((tags, 'refused-but-the-tree-changed', w({'expected': 'nothing touched', 'observed': ch[:6]})))
+    elif name.startswith('sub/') and backup == 'always':
+        pass   # the backup would go through the link under .pc: refused or not, nothing outside may change (checked above)
     elif kind in ('modify', 'create', 'delete') and o.cls != '0':
         # a link that stays inside is followed as before
         out['violations'].append((tags, 'link-that-stays-inside-refused', w({'expected': 'exit 0', 'observed': o.cls, 'stderr': common.b2s(o.err[-300:])})))
+    return out
+
+
+def workdir_case(task):
+    """the working directory is not one of the directories that go away when they become empty"""
+    threads, = task
+    d = wsweep.wdir()
+    sentinel = os.path.join(d, 'sentinel')
+    shutil.rmtree(sentinel, ignore_errors=True)
+    root, pdir = os.path.join(sentinel, 'ws'), os.path.join(sentinel, 'elsewhere')
+    os.makedirs(root)
+    os.makedirs(pdir)
+    os.chmod(root, 0o700)
+    with open(os.path.join(root, 'series'), 'wb') as f:
+        f.write(b'p1.patch\n')
+    text = b'--- a/series\n+++ /dev/null\n@@ -1 +0,0 @@\n-p1.patch\n'
+    with open(os.path.join(pdir, 'p1.patch'), 'wb') as f:
+        f.write(text)
+    st0 = os.stat(root)
+    o = ws.run_rq(root, ['-a', '-q', '--backup', 'never', '-p', pdir], threads=threads)
+    out = {'evals': 1, 'violations': [], 'outcomes': {'workdir:exit-' + o.cls: 1}, 'nontrivial': 1}
+    st1 = os.stat(root) if os.path.isdir(root) else None
+    if o.cls not in ('0', '1') or st1 is None or (st1.st_ino, st1.st_mode) != (st0.st_ino, st0.st_mode):
+        out['violations'].append((wsweep.cls({'working-directory-emptied', 'threads>1' if threads > 1 else 'threads=1'}), o.cls if o.cls not in ('0', '1') else 'working-directory-removed-and-made-again',
+                                  {'kind': 'generated', 'how': 'the workspace holds nothing but `series` (directory mode 0700), the patches are elsewhere (-p); the one patch deletes `series`', 'patch': common.b2s(text), 'threads': threads,
+                                   'expected': 'the directory is the same one afterwards (inode, mode)', 'observed': None if st1 is None else [st1.st_ino == st0.st_ino, oct(st1.st_mode & 0o7777)]}))
     return out
 
 
@@ -231,7 +261,7 @@ def run(tier, seed):
     acc.finish('sweep')
     ltasks = []
     for name, kinds in (('out/created', ('create', 'rename-to')), ('out/x', ('modify', 'delete', 'failing')), ('out/sub/x', ('delete', 'modify')), ('out/new/deep/f', ('create',)), ('lnk', ('modify', 'delete', 'failing')),
-                        ('dangling', ('create', 'rename-to')), ('loop', ('create', 'modify')), ('inside/f', ('modify', 'delete', 'failing')), ('inside/n', ('create',)), ('inlnk', ('modify',))):
+                        ('dangling', ('create', 'rename-to')), ('loop', ('create', 'modify')), ('inside/f', ('modify', 'delete', 'failing')), ('inside/n', ('create',)), ('inlnk', ('modify',)), ('sub/f', ('modify', 'delete')), ('sub/new', ('create',))):
         for kind in kinds:
             for threads in (1, 2):
                 for backup in ('never', 'always'):
@@ -240,6 +270,10 @@ def run(tier, seed):
     for r in wsweep.pmap(link_case, ltasks):
         acc2.add(r)
     acc2.finish('symbolic_links_in_the_tree')
+    acc3 = wsweep.Acc(res)
+    for r in wsweep.pmap(workdir_case, [(1,), (2,)]):
+        acc3.add(r)
+    acc3.finish('working_directory_emptied')
     res.coverage['symbolic_links_in_the_tree']['rule'] = ('the tree holds links %r (a directory outside, a file outside, a dangling one pointing outside, a loop, a directory and a file inside); patches with innocent names that '
                                                           'go through them (create, modify, delete, failing hunk => reject, rename target) x threads {1,2} x backups on/off, behind a patch that applies. Oracle: outside of the '
                                                           'workspace nothing changes (bytes, modes, inodes, mtimes); what leads out is refused with exit 1 and nothing touched; links that stay inside work as before') % (LINKS,)
